@@ -404,6 +404,10 @@ OPERATOR_CHILD = ['BitXor', 'RShift', 'Sub', 'Div', 'Mod', 'FloorDiv', 'MatMult'
 QUICK_STMTS = ['Assign', 'Expr', 'ExprStr', 'Pass', 'Import', 'Global', 'Return', 'YieldStmt', 'For', 'WhileElse', 'IfElif', 'With', 'TryFull', 'FunctionDef', 'ClassDef', 'Decorated', 'Match', 'NestedIf', 'TypeAlias']
 
 
+FSTRING_PARTS = ['\x007', '\x00', '\x000 ', 'a\x001b', '\x008', '\\', '\\n', '\\x41', '{', '}', '{}', '{{c}}', "'", '"', '\'"', "'''", '"""', '\n', '\r', '\r\n', '\t', '\x7f', '\x1b[0m', '\xe9', '\u2028', '\\N{BULLET}',
+                 '\u2022', '#', '%s', ' ', '\x0c', '\\', 'a\\', '\\0', '\\07', '\x07', '\x01', '\ud800']
+
+
 def all_cells(tier):
     cells = []
     quick = tier != 'thorough'
@@ -443,6 +447,20 @@ def all_cells(tier):
                 except Exception:
                     continue
                 cells.append(('prog', 'adj %s | %s | %s' % (tpl.split('\n')[0], a, b if two else ''), 'async def _f_():\n ' + text + '\n'))
+    # f-strings: tricky literal text next to replacement fields (escapes that change meaning when a digit / brace / quote follows)
+    for part in FSTRING_PARTS:
+        for shape in ('after', 'before', 'between'):
+            if quick and shape == 'between':
+                continue
+            fv = lambda n: ast.FormattedValue(value=ast.Name(id=n, ctx=ast.Load()), conversion=-1, format_spec=None)
+            values = {'after': [fv('c'), ast.Constant(value=part)], 'before': [ast.Constant(value=part), fv('c')], 'between': [fv('c'), ast.Constant(value=part), fv('d')]}[shape]
+            tree = ast.Module(body=[ast.Assign(targets=[ast.Name(id='t', ctx=ast.Store())], value=ast.JoinedStr(values=values))], type_ignores=[])
+            try:
+                source = ast.unparse(ast.fix_missing_locations(tree)) + '\n'
+                ast.parse(source)
+            except Exception:
+                continue
+            cells.append(('prog', 'num f-string text %r %s a field' % (part, shape), source))
     for p in PATTERNS:
         cells.append(('prog', 'pat case %s' % p, 'match x:\n  case %s: pass\n' % p))
         cells.append(('prog', 'pat case %s if g' % p, 'match x:\n  case %s if g: pass\n  case _: pass\n' % p))
